@@ -170,7 +170,10 @@ def iter_zones(ctx, tz, relativedelta, rng, tier, with_real=True, n_posix=None, 
             try:
                 yield 'tzstr(%s)' % s, 'tzstr', tz.tzstr(s), model, nothing
             except Exception as e:
-                ctx.violation('tzstr-rejected', {'zone': s}, '%s: %s' % (type(e).__name__, e))
+                if tzzoo.subminute(pz) and isinstance(e, ValueError):
+                    ctx.count('tzstr_subminute_rejected')
+                else:
+                    ctx.violation('tzstr-rejected', {'zone': s}, '%s: %s' % (type(e).__name__, e))
         if want('tzrange'):
             yield 'tzrange(%s)' % s, 'tzrange', tzzoo.tzrange_equivalent(tz, relativedelta, pz), model, nothing
         if want('tzical') and pz.start[0] == 'M' and pz.end[0] == 'M':
